@@ -342,6 +342,9 @@ class NamedTuple:
         return self.values[self.typ.fields.index(name)]
 
 
+_REP_COUNTER = [0]
+
+
 class SymComp:
     """List comprehension `[elt for t in range(lo, hi)]` over a SYMBOLIC range with a
     pure element expression: `value` is elt evaluated once for the generic index term
@@ -591,6 +594,18 @@ def binop(op, a, b):
         return _concrete_binop(op, a, b)
     if op in ("+", "*") and _is_val(a) and _is_val(b):
         return _opaque_arith(op, a, b)
+    if op == "*" and (isinstance(a, (list, tuple)) or isinstance(b, (list, tuple))):
+        # sequence repetition  [x] * n : with a concrete n it is the python operation, with a symbolic n the length of
+        # the result is symbolic - outside the supported subset (never a guess)
+        seq, n = (a, b) if isinstance(a, (list, tuple)) else (b, a)
+        c = concrete_of(z3.simplify(to_z3(n))) if isinstance(n, (Sym, z3.ExprRef)) else n
+        if isinstance(c, int) and not isinstance(c, bool):
+            return seq * c
+        if isinstance(seq, list) and len(seq) == 1 and isinstance(n, Sym) and n.z.sort() == INT:
+            # [x] * n with a symbolic n: the list [x for _ in range(n)] (every element is x)
+            _REP_COUNTER[0] += 1
+            return SymComp(0, n, z3.Int(f"rep!{_REP_COUNTER[0]}"), seq[0])
+        raise Unsupported("sequence repetition with a symbolic count")
     gd = gdeps_of(a, b)
     if op in ("+", "-", "*"):
         za, zb = _num_pair(a, b)
